@@ -1073,6 +1073,11 @@ def str_method(I, s, name, args, kwargs, node=None):
     if name == "isdigit" or name == "isalpha" or name == "isspace" or name == "isalnum":
         return mk_bool(ctx.str_pred(name, z))
     if name == "encode":
+        enc = args[0] if args else "utf-8"
+        if isinstance(enc, str) and enc.lower().replace("_", "-") in ("utf-8", "utf8") and len(args) <= 1 and not kwargs:
+            # an uninterpreted function of the string: nothing about the bytes is known but that equal strings
+            # encode alike (lone surrogates would raise: stated assumption "text is encodable")
+            return SBytes(ctx.str_fn("utf8_encode", z))
         raise OutOfReach("str.encode on symbolic string")
     if name == "split":
         raise OutOfReach("str.split on symbolic string")
